@@ -109,7 +109,34 @@ func RunCheck(o CheckOpts) (*CheckReport, error) {
 		}
 		cs = append(cs, c)
 	}
-	units := make([]*FnRun, len(cs))
+	// function literals that are monitor actions are verified through their monitor, not on their own
+	actionOf := map[string]*Monitor{}
+	type actionJob struct {
+		m   *Monitor
+		lit string
+	}
+	var actions []actionJob
+	for _, m := range eng.DB.Monitors {
+		lits := eng.ActionLiterals(m)
+		for _, l := range lits {
+			actionOf[l.String()] = m
+		}
+		if hasProp(m.Props, o.Prop) {
+			for _, l := range lits {
+				if o.Only == "" || strings.Contains(l.String(), o.Only) {
+					actions = append(actions, actionJob{m, l.String()})
+				}
+			}
+		}
+	}
+	var cs2 []*Contract
+	for _, c := range cs {
+		if _, isAction := actionOf[c.Key]; !isAction {
+			cs2 = append(cs2, c)
+		}
+	}
+	cs = cs2
+	units := make([]*FnRun, len(cs)+len(actions))
 	var wg sync.WaitGroup
 	sem := make(chan struct{}, 8)
 	for i, c := range cs {
@@ -121,7 +148,21 @@ func RunCheck(o CheckOpts) (*CheckReport, error) {
 			units[i] = eng.VerifyUnit(c)
 		}(i, c)
 	}
+	for i, a := range actions {
+		wg.Add(1)
+		sem <- struct{}{}
+		go func(i int, a actionJob) {
+			defer wg.Done()
+			defer func() { <-sem }()
+			units[len(cs)+i] = eng.VerifyAction(a.m, eng.FnByName[a.lit])
+		}(i, a)
+	}
 	wg.Wait()
+	for _, m := range eng.DB.Monitors {
+		if hasProp(m.Props, o.Prop) && o.Only == "" {
+			units = append(units, eng.DisciplineUnit(m))
+		}
+	}
 	// lemmas of this property
 	lem := eng.VerifyLemmas(o.Prop)
 	if lem != nil {
@@ -189,6 +230,9 @@ func RunCheck(o CheckOpts) (*CheckReport, error) {
 }
 
 func (r *FnRun) fnShortSafe() string {
+	if r.action != nil {
+		return r.fnShort(r.action)
+	}
 	if r.Fn != nil {
 		return r.fnShort(r.Fn)
 	}
